@@ -1,6 +1,61 @@
-"""C16 — real readers on containers produced by the independent encoders with layout freedoms."""
+"""C16 — real readers on containers produced by the independent encoders with layout freedoms; plus the PMTiles addressing
+primitives (tile id <-> coordinate, directory search with run lengths and leaf pointers) against spec/Layout_PMTiles.tla."""
+import json
+import os
+
+from . import common as C
 from . import containers
 
 
+def pmtiles_addressing_stage(run, tier, replay):
+    d = C.outdir("C16_pm")
+    hb = C.build_harness()
+    cases = os.path.join(d, "cases.ndjson")
+    if replay:
+        rec = json.load(open(replay))
+        with open(cases, "w") as f:
+            for fl in rec["failures"]:
+                if fl.get("replay_case") and fl["replay_case"].get("k") in ("level", "dir"):
+                    f.write(json.dumps(fl["replay_case"]) + "\n")
+    else:
+        # TLC: Hilbert bijection / adjacency on levels 0..MaxZ, find_tile = the published covering rule on EVERY directory
+        mc = C.run_tlc("mc/MC_PMTiles.tla", "mc/MC_PMTiles_%s.cfg" % tier, "C16_mc_pmtiles", workers=8, replay_out=cases, timeout=2400, heap="16g")
+        C.require_clean(mc, "MC_PMTiles (theorems of Layout_PMTiles.tla)")
+        run.add_tlc(mc)
+    uniq = []
+    seen = set()
+    for c in C.read_ndjson(cases):
+        k = json.dumps(c, sort_keys=True)
+        if k not in seen:
+            seen.add(k)
+            uniq.append(c)
+    with open(cases, "w") as f:
+        for c in uniq:
+            f.write(json.dumps(c) + "\n")
+    if not uniq:
+        return run
+    t = os.path.join(d, "trace.ndjson")
+    s = C.run_harness(hb, ["replay", "PMTILES", cases, t], timeout=1200)
+    v = C.validate_trace("trace/Trace_PMTiles.tla", "trace/Trace_PMTiles.cfg", "C16_trace_pmtiles", t, timeout=1800)
+    run.add_tlc(v)
+    for (line, fl) in v.fails:
+        for cl in fl["clauses"]:
+            rec = {"clause": cl, "source": "pmtiles_addressing", "fmt": "pmtiles", "case": fl["case"]}
+            if line - 1 < len(uniq):
+                rec["replay_case"] = uniq[line - 1]
+            run.failure(rec)
+    run.traces += s["cases"]
+    run.evaluations += s["cases"]
+    run.nontrivial += len([c for c in uniq if c["k"] == "dir" and len(c["entries"]) >= 2])
+    run.extra.update({"pmtiles_levels": s["levels"], "pmtiles_directories": s["dirs"]})
+    run.rule += (" || PMTiles addressing (hook H4): every coordinate and id of levels 0..MaxZ through the real tile-id functions, every "
+                 "directory over a small id space (run lengths 0..3, 0 = leaf pointer) through the real find_tile, judged with "
+                 "Layout_PMTiles.tla (transcriptions proved bijective / equal to the published covering rule by TLC)")
+    return run
+
+
 def run(tier, seed, replay):
-    return containers.run_family("C16", tier, seed, replay, origin="indep", mc_cfg="mc/MC_C16_%s.cfg" % tier)
+    run = C.Run("C16", tier, seed, "model_checking")
+    containers.run_family("C16", tier, seed, replay, origin="indep", mc_cfg="mc/MC_C16_%s.cfg" % tier, run=run, finish=False)
+    pmtiles_addressing_stage(run, tier, replay)
+    return run.finish()
